@@ -277,7 +277,15 @@ fn emit_walk(sink: &mut Sink, r: &mut Rng, scratch: &str) {
         return;
     }
     let root = PathBuf::from(scratch).join(format!("t{}", sink.n));
-    let nodes = build_tree(r, &root);
+    let mut nodes = build_tree(r, &root);
+    // The scan target is `src`, one level below the project root (the working directory of the
+    // scan).  Depth is the distance from the project root: that is the scan root whenever the
+    // whole project is scanned, and the only reading under which `relative_depth` (base depth
+    // taken from the project-relative scope) and C08 (same verdict for `check` and `check src`)
+    // are coherent.
+    for n in &mut nodes {
+        n.depth += 1;
+    }
     let use_gitignore = r.chance(1, 2);
     // ignore file: basename patterns only, so that their meaning needs no interpretation
     let gi_log = r.chance(1, 2);
